@@ -1,0 +1,283 @@
+//go:build verif
+
+package quic
+
+// Export shims for the spec-driven ("parrot") client units of the C12 / C15 checks of the verification
+// harness in /verif. Compiled only with -tags verif. Add-only, no behaviour change.
+//
+// VerifNewUClientConn builds the client connection of a QUICSpec with the production constructor
+// newUClientConnection, following UTransport.dial / UTransport.doDial step by step (connection ID
+// generator chosen from the spec, validateConfig, populateConfig, QUICSpec.UpdateConfig, first packet
+// number from the spec, Config.Tracer, connection IDs of the spec's lengths). Only the socket and the
+// transport's routing table are stand-ins (a sendConn that discards and a connRunner that does
+// nothing): no packet is ever written because the run loop is NOT started.
+//
+// Instead of the run loop the harness drives the connection itself, with the production methods the run
+// loop would call:
+//
+//   - the constructor performs the first two steps of Conn.run (cryptoStreamHandler.StartHandshake and
+//     the EventWriteInitialData branch of Conn.handleHandshakeEvents), which makes uTLS produce the
+//     ClientHello of this connection: ClientHello returns those bytes, i.e. what the client puts on the
+//     wire (including the quic_transport_parameters extension after suppression, shuffling and
+//     population of the per-connection copy of the spec);
+//   - CompleteHandshake applies the server's transport parameters and the completion of the handshake
+//     (Conn.handleTransportParameters, Conn.handleHandshakeComplete);
+//   - HandleFrames is Conn.handleFrames, the function every decrypted packet payload goes through;
+//   - PopFrames is what Conn.sendPackets and the packer do to collect control and STREAM frames
+//     (connection-level window update, framer.Append); the returned frames carry their production
+//     acknowledgement handlers;
+//   - Close is the epilogue of Conn.run (cryptoStreamHandler.Close, Conn.handleCloseError), without
+//     the send queue and the timer, which only exist once the run loop runs.
+//
+// All methods must be called from one goroutine (they stand in for the run loop), except that the
+// application-side calls on Conn() (AcceptStream, ReceiveDatagram, stream methods) may run concurrently
+// as they may in production. Do not call Conn().CloseWithError or any other method of Conn that waits
+// for the run loop.
+
+import (
+	"context"
+	"errors"
+	"net"
+	"time"
+
+	tls "github.com/refraction-networking/utls"
+
+	"github.com/refraction-networking/uquic/internal/ackhandler"
+	"github.com/refraction-networking/uquic/internal/handshake"
+	"github.com/refraction-networking/uquic/internal/monotime"
+	"github.com/refraction-networking/uquic/internal/protocol"
+	"github.com/refraction-networking/uquic/internal/utils"
+	"github.com/refraction-networking/uquic/internal/wire"
+	"github.com/refraction-networking/uquic/qlogwriter"
+)
+
+// verifDiscardSendConn is the socket stand-in: nothing is written without the run loop; a write
+// would be discarded.
+type verifDiscardSendConn struct{ localAddr, remoteAddr net.Addr }
+
+var _ sendConn = &verifDiscardSendConn{}
+
+func (s *verifDiscardSendConn) Write([]byte, uint16, protocol.ECN) error { return nil }
+func (s *verifDiscardSendConn) WriteTo([]byte, net.Addr) error           { return nil }
+func (s *verifDiscardSendConn) Close() error                             { return nil }
+func (s *verifDiscardSendConn) LocalAddr() net.Addr                      { return s.localAddr }
+func (s *verifDiscardSendConn) RemoteAddr() net.Addr                     { return s.remoteAddr }
+func (s *verifDiscardSendConn) ChangeRemoteAddr(net.Addr, packetInfo)    {}
+func (s *verifDiscardSendConn) capabilities() connCapabilities           { return connCapabilities{} }
+
+// verifUClientRunner is the routing-table stand-in (connRunner of the transport).
+type verifUClientRunner struct{}
+
+var _ connRunner = verifUClientRunner{}
+
+func (verifUClientRunner) Add(protocol.ConnectionID, packetHandler) bool                    { return true }
+func (verifUClientRunner) Remove(protocol.ConnectionID)                                     {}
+func (verifUClientRunner) ReplaceWithClosed([]protocol.ConnectionID, []byte, time.Duration) {}
+func (verifUClientRunner) AddResetToken(protocol.StatelessResetToken, packetHandler)        {}
+func (verifUClientRunner) RemoveResetToken(protocol.StatelessResetToken)                    {}
+
+// VerifUClientServerName is the server name the connection's tls.Config (and hence its ClientHello) carries.
+const VerifUClientServerName = "uclient.verif.test"
+
+// VerifUClientConn is a spec-driven client connection whose run loop is not running.
+type VerifUClientConn struct {
+	c           *Conn
+	srcConnID   protocol.ConnectionID
+	destConnID  protocol.ConnectionID
+	clientHello []byte
+	hsDone      bool
+	closed      bool
+}
+
+// VerifNewUClientConn builds the connection a UTransport{QUICSpec: spec} would build for
+// Dial(ctx, addr, tlsConf, conf) and makes it produce its ClientHello. conf may be nil. A spec without
+// ClientHelloSpec, or one whose ClientHelloSpec has no QUICTransportParametersExtension, panics inside
+// newUClientConnection exactly as a dial would.
+func VerifNewUClientConn(spec *QUICSpec, conf *Config) (*VerifUClientConn, error) {
+	if spec == nil {
+		return nil, errors.New("verif: VerifNewUClientConn needs a QUICSpec")
+	}
+	// UTransport.dial: the source connection ID generator comes from the spec
+	var gen ConnectionIDGenerator
+	if spec.InitialPacketSpec.SrcConnIDLength != 0 {
+		gen = &protocol.DefaultConnectionIDGenerator{ConnLen: spec.InitialPacketSpec.SrcConnIDLength}
+	} else {
+		gen = &protocol.ExpEmptyConnectionIDGenerator{}
+	}
+	if err := validateConfig(conf); err != nil {
+		return nil, err
+	}
+	conf = populateConfig(conf)
+	spec.UpdateConfig(conf)
+	initialPN := spec.InitialPacketSpec.initialPN()
+
+	remoteAddr := &net.UDPAddr{IP: net.IPv4(1, 2, 3, 4), Port: 4321}
+	localAddr := &net.UDPAddr{IP: net.IPv4(127, 0, 0, 1), Port: 1234}
+	tlsConf := &tls.Config{ServerName: VerifUClientServerName, NextProtos: []string{"h3"}}
+
+	// UTransport.doDial
+	srcConnID, err := gen.GenerateConnectionID()
+	if err != nil {
+		return nil, err
+	}
+	var destConnID protocol.ConnectionID
+	if spec.InitialPacketSpec.DestConnIDLength > 0 {
+		destConnID, err = generateConnectionIDForInitialWithLength(spec.InitialPacketSpec.DestConnIDLength)
+	} else {
+		destConnID, err = generateConnectionIDForInitial()
+	}
+	if err != nil {
+		return nil, err
+	}
+	ctx := context.Background()
+	var qlogTrace qlogwriter.Trace
+	if conf.Tracer != nil {
+		qlogTrace = conf.Tracer(ctx, true, destConnID)
+	}
+	wc := newUClientConnection(
+		context.WithoutCancel(ctx),
+		&verifDiscardSendConn{localAddr: localAddr, remoteAddr: remoteAddr},
+		verifUClientRunner{},
+		destConnID,
+		srcConnID,
+		gen,
+		newStatelessResetter(nil),
+		conf,
+		tlsConf,
+		initialPN,
+		false,
+		false,
+		qlogTrace,
+		utils.DefaultLogger.WithPrefix("client"),
+		conf.Versions[0],
+		spec,
+	)
+	v := &VerifUClientConn{c: wc.Conn, srcConnID: srcConnID, destConnID: destConnID}
+	c := v.c
+
+	// Conn.run, first steps: start the handshake and take the ClientHello out of the event queue.
+	if err := c.cryptoStreamHandler.StartHandshake(c.ctx); err != nil {
+		v.Close(err)
+		return nil, err
+	}
+	for {
+		ev := c.cryptoStreamHandler.NextEvent()
+		if ev.Kind == handshake.EventNoEvent {
+			break
+		}
+		if ev.Kind == handshake.EventWriteInitialData { // Conn.handleHandshakeEvents
+			v.clientHello = append(v.clientHello, ev.Data...)
+			if _, err := c.initialStream.Write(ev.Data); err != nil {
+				v.Close(err)
+				return nil, err
+			}
+		}
+	}
+	return v, nil
+}
+
+// Conn returns the connection (for the application-side API: AcceptStream, AcceptUniStream,
+// ReceiveDatagram, OpenStream ..., Context). See the restrictions at the top of this file.
+func (v *VerifUClientConn) Conn() *Conn { return v.c }
+
+// ClientHello returns the TLS handshake bytes the connection wrote to its Initial crypto stream: the
+// ClientHello message this connection sends (4-byte handshake header included).
+func (v *VerifUClientConn) ClientHello() []byte { return append([]byte(nil), v.clientHello...) }
+
+// SrcConnID and DestConnID are the connection IDs of the first Initial packet.
+func (v *VerifUClientConn) SrcConnID() protocol.ConnectionID  { return v.srcConnID }
+func (v *VerifUClientConn) DestConnID() protocol.ConnectionID { return v.destConnID }
+
+// Version is the QUIC version of the connection.
+func (v *VerifUClientConn) Version() protocol.Version { return v.c.version }
+
+// AdvertisedRecord returns a copy of the connection's own record of the transport parameters it
+// advertised (Conn.uAdvertisedParams; nil if the connection keeps none). Never an oracle: the
+// advertised values are those in ClientHello.
+func (v *VerifUClientConn) AdvertisedRecord() *wire.TransportParameters {
+	if v.c.uAdvertisedParams == nil {
+		return nil
+	}
+	p := *v.c.uAdvertisedParams
+	return &p
+}
+
+// CompleteHandshake does what the run loop does when the server's transport parameters arrive
+// (EventReceivedTransportParameters: Conn.handleTransportParameters) and when the handshake completes
+// (EventHandshakeComplete, then Conn.handleHandshakeComplete after the packet's frames). The connection
+// IDs the client checks (initial_source_connection_id, original_destination_connection_id) are filled
+// in when peer leaves them empty. Call it once, before the first 1-RTT HandleFrames.
+func (v *VerifUClientConn) CompleteHandshake(peer *wire.TransportParameters) error {
+	if v.hsDone {
+		return errors.New("verif: handshake already completed")
+	}
+	p := *peer
+	if p.InitialSourceConnectionID.Len() == 0 {
+		p.InitialSourceConnectionID = v.c.handshakeDestConnID
+	}
+	if p.OriginalDestinationConnectionID.Len() == 0 {
+		p.OriginalDestinationConnectionID = v.c.origDestConnID
+	}
+	if err := v.c.handleTransportParameters(&p); err != nil {
+		return err
+	}
+	v.hsDone = true
+	v.c.handshakeComplete = true
+	return v.c.handleHandshakeComplete(monotime.Now())
+}
+
+// HandleFrames is Conn.handleFrames for the payload of one packet received at encLevel (destination
+// connection ID: the client's source connection ID; no qlog callback; receive time: now). When it
+// returns an error the run loop would close the connection with it (Conn.closeLocal): call Close(err)
+// and feed nothing more.
+func (v *VerifUClientConn) HandleFrames(payload []byte, encLevel protocol.EncryptionLevel) error {
+	_, _, _, err := v.c.handleFrames(payload, v.srcConnID, encLevel, nil, monotime.Now())
+	return err
+}
+
+// QueuedControlFrames returns the connection-level control frames waiting in the framer (MAX_STREAMS,
+// MAX_DATA, RETIRE_CONNECTION_ID, ...), oldest first. Read-only. Control frames of streams
+// (MAX_STREAM_DATA, STOP_SENDING, RESET_STREAM) are not in this queue: PopFrames collects them.
+func (v *VerifUClientConn) QueuedControlFrames() []wire.Frame {
+	f := v.c.framer
+	f.controlFrameMutex.Lock()
+	defer f.controlFrameMutex.Unlock()
+	return append([]wire.Frame(nil), f.controlFrames...)
+}
+
+// PopFrames collects frames for one packet with maxLen bytes of room the way the send path does:
+// Conn.sendPackets queues a MAX_DATA frame if the connection flow controller has a window update,
+// packetPacker.composeNextPacket calls framer.Append. The frames are removed from their queues as if
+// they had been sent; each carries its production handler, so the caller can deliver the peer's
+// acknowledgement (Handler.OnAcked) or a loss (Handler.OnLost). A nil Handler stands for the packer's
+// retransmission queue (frame is retransmitted on loss, nothing happens on acknowledgement).
+func (v *VerifUClientConn) PopFrames(maxLen protocol.ByteCount) ([]ackhandler.Frame, []ackhandler.StreamFrame) {
+	now := monotime.Now()
+	if offset := v.c.connFlowController.GetWindowUpdate(now); offset > 0 {
+		v.c.framer.QueueControlFrame(&wire.MaxDataFrame{MaximumData: offset})
+	}
+	frames, streamFrames, _ := v.c.framer.Append(nil, nil, maxLen, now, v.c.version)
+	return frames, streamFrames
+}
+
+// Close is the epilogue of Conn.run for a connection closed with err (nil: closed by the application
+// without error): the crypto setup is closed (this ends the uTLS handshake goroutine), then
+// Conn.handleCloseError releases streams, datagram queue and connection IDs; finally the connection's
+// context is cancelled. Idempotent. Nothing of the connection keeps running afterwards.
+func (v *VerifUClientConn) Close(err error) {
+	if v.closed {
+		return
+	}
+	v.closed = true
+	c := v.c
+	ce := &closeError{err: err, immediate: false}
+	if !c.closeErr.CompareAndSwap(nil, ce) {
+		ce = c.closeErr.Load()
+	}
+	c.cryptoStreamHandler.Close()
+	c.handleCloseError(ce)
+	if c.qlogger != nil {
+		c.qlogger.Close()
+	}
+	c.ctxCancel(ce.err)
+}
